@@ -230,6 +230,22 @@ def s2(chk: Check, proj: Project) -> None:
         first = norm(y.value.elts[0]) if isinstance(y.value, ast.Tuple) else norm(y.value) if y.value is not None else "?"
         ok = any(pol and f"self._is_path_valid({first})" in t for t, pol in at)
         chk.ob("S2", "finders:list:filtered", m2.loc(y), ok, f"`{first}` is yielded only if _is_path_valid" if ok else f"`{short(y)}` yields a path that did not pass _is_path_valid: collectstatic exposes forbidden files")
+    # every configured location is listed: the loop over the locations is never left early
+    lp = next((x for x in f2.body if isinstance(x, ast.For)), None)
+    if lp is not None:
+        early = [x for x in ast.walk(lp) if isinstance(x, (ast.Return, ast.Break)) and next((a for a in ancestors(x) if isinstance(a, (ast.For, ast.While))), None) is lp]
+        chk.ob("S2", "finders:list:every-location-visited", m2.loc(early[0]) if early else m2.loc(lp), not early,
+               "the loop over the component directories has no return / break" if not early else
+               f"`{short(enclosing_stmt(early[0]))}` ends the listing at the first directory that fails the test: every component directory after a missing one disappears from list() / collectstatic while find() still serves its files")
+    # the predicate judges the path it was given, unchanged, against the configured patterns
+    mp, fp = proj.func("finders", "ComponentsFileSystemFinder._is_path_valid")
+    pth = params(fp)[1]
+    re_assign = [st for st in stmts(fp) if any(isinstance(t, ast.Name) and t.id == pth for t, _v in __import__("djc_sa.source", fromlist=["assign_targets"]).assign_targets(st))]
+    helper_args = [c.args[0] for c in calls(fp) if last_attr(c.func) in ("any_regex_match", "no_regex_match") and c.args]
+    okp = not re_assign and len(helper_args) >= 2 and all(isinstance(a, ast.Name) and a.id == pth for a in helper_args)
+    chk.ob("S2", "finders:_is_path_valid:path-judged-unchanged", mp.loc(re_assign[0]) if re_assign else mp.loc(fp), okp,
+           f"`{pth}` reaches any_regex_match / no_regex_match unchanged" if okp else
+           f"`{short(re_assign[0]) if re_assign else 'the helpers receive another value'}`: the path is transformed before it is matched while the configured patterns are not - a forbidden pattern with an upper-case letter (`^Private/`, `SECRET`) never matches any more and the files it hides become exposed")
     # other methods returning / yielding paths
     cls = proj.mod("finders").cls("ComponentsFileSystemFinder")
     for st in cls.body:
@@ -316,6 +332,12 @@ def s5_accessors(chk: Check, proj: Project, names: List[str], rule: str = "S5") 
                     dead.append(st_)
         if dead:
             chk.violated(rule, f"app_settings:InternalSettings.{nm}:dead-fallback", m.loc(dead[0]), f"`{short(dead[0].test)}` can never be true because the value already went through default(...): the fallback to the deprecated setting name below it is dead, so a list configured under the old name is silently ignored")
+        # ... and hands the configured value out as it is (no normalisation of the patterns behind the consumer's back)
+        direct = bool(rets) and all(isinstance(r.value, ast.Call) and last_attr(r.value.func) in ("default", "cast", "_validate_context_behavior") or isinstance(r.value, (ast.Name, ast.Attribute)) for r in rets)
+        if nm.startswith("STATIC_FILES"):
+            chk.ob(rule, f"app_settings:InternalSettings.{nm}:value-unchanged", m.loc(rets[0]) if rets else m.loc(f), direct,
+                   "the accessor returns default(<configured>, <fallback>) itself" if direct else
+                   f"`{short(rets[0])}` rewrites the configured patterns (e.g. prepends a dot): a suffix such as 'secrets.json' or '_secret.json' becomes '.secrets.json' and no longer matches the files it was meant to forbid")
         ok = bool(dflt) and not ors
         chk.ob(rule, f"app_settings:InternalSettings.{nm}", m.loc(f), ok, "returns default(<configured>, <fallback>) (None-check)" if ok else
                f"`{short(ors[0]) if ors else short(rets[0]) if rets else nm}` falls back to the default for every FALSY configured value: an explicit empty list / 0 is silently replaced by the default")
